@@ -13,12 +13,15 @@
 #[path = "/repo/src/uploading/mod.rs"] mod uploading;
 #[path = "/repo/src/util/mod.rs"] mod util;
 
+#[path = "/repo/src/uploading/sync.rs"] mod sync_alone;
+
 mod sexp;
 mod h_c18;
 mod h_c17;
 mod h_c15;
 mod h_c14;
 mod h_c10;
+mod h_c06;
 
 use std::io::{self, BufRead, Write};
 
@@ -74,6 +77,7 @@ fn dispatch(v: &Val) -> Val {
         1700 => h_c17::run(&l[1]),
         1500 => h_c15::run(&l[1]),
         1400 => h_c14::run(&l[1]),
+        600 => h_c06::run(&l[1]),
         1000 => h_c10::encode(&l[1]),
         1001 => h_c10::decode(&l[1]),
         1002 => h_c10::valid_path(&l[1]),
